@@ -121,7 +121,14 @@ func DefaultConfig() config.Config {
 
 func Start(o Options) (*Broker, error) {
 	once.Do(install)
-	ln, err := net.Listen("tcp", "127.0.0.1:0")
+	var ln net.Listener
+	var err error
+	for i := 0; i < 40; i++ { // ephemeral ports can run out for a moment when hundreds of scenarios churn connections
+		if ln, err = net.Listen("tcp", "127.0.0.1:0"); err == nil {
+			break
+		}
+		time.Sleep(50 * time.Millisecond)
+	}
 	if err != nil {
 		return nil, err
 	}
